@@ -275,6 +275,18 @@ def run_(pid, tier, seed, replay=None):
         log(f"[{pid}] random {tname} {parts}: {' | '.join(outs)} -> prop {'ok' if not rejected(pr) else 'REJECTED'}, "
             f"impl {'ok' if not rejected(ir) else 'drift'}")
         if tname == "fix":
+            # vacuity: byte-identical datagram pairs (second copies are marked "dup") were shown to the rules under a
+            # non-zero delay and arrived
+            dup_evals = dup_arrivals = 0
+            with open(tpath) as f:
+                for line in f:
+                    e = json.loads(line)
+                    if e.get("dup"):
+                        dup_evals += e["ev"] == "eval"
+                        dup_arrivals += e["ev"] == "arrive"
+            ck.extra["duplicate_datagrams"] = {"evals": dup_evals, "arrivals": dup_arrivals}
+            if not rejected(pr) and (dup_evals == 0 or dup_arrivals == 0):
+                raise MachineryError("vacuity: no byte-identical datagram pair in the fixture traffic")
             with open(tpath) as f:
                 ck.sample({"kind": "recorded trace excerpt (ClientServer)", "config": parts[0],
                            "events": [json.loads(x) for _, x in zip(range(16), f)]})
